@@ -1,22 +1,20 @@
 (* C17 - negotiation parameters round-trip through every carrier, invalid sets are rejected
    rather than misread, and the compression settings are a function of the parameters alone.
    Property theorems only; each is closed by [exact] of a lemma of Proofs/NegotiationProofs.v.
+   The theorems are about the code AS IT IS NOW, i.e. after the repairs of F25 (quic writer
+   refuses texts over 65535 bytes), F26 (text that is not UTF-8 refused by Validate, by
+   MarshalKeyValues and by UnmarshalKeyValues) and F27 (level and window bits validated whether
+   or not a compression type is named).  The former behaviour is recorded at the end as lemmas
+   about [validate_former], [marshal_kv_former], [unmarshal_kv_into_former], [marshal_bin_former].
 
    Reading of the property text used here (and by the predicate [neg_ok] of Model/Negotiation.v):
    - a VALID SET ([valid_set]) is one with none of the listed defects: encoding absent/json/proto,
      compression type absent/per-message/context-takeover, level absent or 0..9, window bits
-     absent or 0..32, all text UTF-8.  Nothing else is required - in particular NO length limit:
-     a 65536-byte transport id is a valid set.
+     absent or 0..32, all text UTF-8.  Nothing else is required - in particular NO length limit.
    - the round trips are proved on the larger domain [transportable_p] (UTF-8 text, machine
      ints), of which the valid sets are a part (c17_valid_in_domain).
-   - the binary form has 16-bit length prefixes: the writer (as it is now) refuses a set with a
-     longer key or value, and everything it does write is read back unchanged.
-   Two places where the code AS IT IS breaks the text are kept as refutation theorems with
-   computed witnesses (reproduced on the real code by h-negotiation, signatures in brackets):
-     c17_non_utf8_refuted            [F26:non-utf8-text-replaced]
-     c17_level_without_type_refuted  [F27:level-window-unchecked-without-type]
-   F25 (bin-length-truncated) is fixed in /repo; c17_former_writer_long_value_misread records it
-   as a fact about the former writer. *)
+   - [kv_pairs p] are the pairs MarshalKeyValues emits; [marshal_kv p] is MarshalKeyValues itself
+     (None = error); [marshal_bin_checked] is quic Marshal (None = error). *)
 From Coq Require Import String Ascii List NArith ZArith Bool Permutation.
 From Iscp Require Import Lib.ListMap Lib.Bytes Lib.Decimal Model.Negotiation Proofs.NegotiationProofs.
 Import ListNotations.
@@ -38,17 +36,26 @@ Print Assumptions c17_valid_in_domain.
 
 (* ---------- round trips ---------- *)
 
-(* Key/value map: for every set in the domain and EVERY ORDER q of the emitted pairs (a Go map
-   has no order), UnmarshalKeyValues of MarshalKeyValues is the identity. *)
-Theorem c17_kv_roundtrip : forall p q,
-  transportable_p p -> Permutation q (marshal_kv p) -> unmarshal_kv q = Some p.
-Proof. exact kv_roundtrip. Qed.
+(* Key/value map: for every set in the domain MarshalKeyValues succeeds, and for EVERY ORDER q of
+   the pairs it emitted (a Go map has no order) UnmarshalKeyValues returns the set. *)
+Theorem c17_kv_marshal_succeeds : forall p, transportable_p p -> marshal_kv p = Some (kv_pairs p).
+Proof. exact marshal_kv_some. Qed.
+Print Assumptions c17_kv_marshal_succeeds.
+Theorem c17_kv_roundtrip : forall p l q,
+  transportable_p p -> marshal_kv p = Some l -> Permutation q l -> unmarshal_kv q = Some p.
+Proof. exact kv_roundtrip_now. Qed.
 Print Assumptions c17_kv_roundtrip.
 
+(* MarshalKeyValues (and with it both URL writers and the quic writer) refuses exactly the sets
+   whose text is not UTF-8 - they are no longer sent with U+FFFD in place of the bytes. *)
+Theorem c17_kv_marshal_refuses_iff : forall p, marshal_kv p = None <-> valid_text p = false.
+Proof. exact marshal_kv_refuses_iff. Qed.
+Print Assumptions c17_kv_marshal_refuses_iff.
+
 (* URL query values (websocket and webtransport): same, one value per key, every order. *)
-Theorem c17_url_roundtrip : forall p q,
-  transportable_p p -> Permutation q (marshal_kv p) -> unmarshal_url (singletons q) = Some p.
-Proof. exact url_roundtrip. Qed.
+Theorem c17_url_roundtrip : forall p u q,
+  transportable_p p -> marshal_url p = Some u -> Permutation q u -> unmarshal_url q = Some p.
+Proof. exact url_roundtrip_now. Qed.
 Print Assumptions c17_url_roundtrip.
 
 (* QUIC binary form, the writer AS IT IS NOW ([marshal_bin_checked]: an error when a key or value
@@ -61,10 +68,11 @@ Theorem c17_bin_roundtrip : forall p order b,
 Proof. exact bin_roundtrip_checked. Qed.
 Print Assumptions c17_bin_roundtrip.
 
-(* ... and Marshal refuses iff the set cannot be framed: some emitted key or value is 65536 bytes
-   or longer ("rejected rather than misread"; keys are at most 9 bytes, so: some text is). *)
+(* ... and Marshal refuses iff the text is not UTF-8 or the set cannot be framed: some emitted
+   key or value is 65536 bytes or longer ("rejected rather than misread"). *)
 Theorem c17_bin_refuses_iff_too_long : forall p order, (forall l, Permutation (order l) l) ->
-  (marshal_bin_checked order p = None <-> exists kv, In kv (marshal_kv p) /\ fits16 kv = false).
+  (marshal_bin_checked order p = None <->
+   valid_text p = false \/ exists kv, In kv (kv_pairs p) /\ fits16 kv = false).
 Proof. exact bin_checked_refuses_iff. Qed.
 Print Assumptions c17_bin_refuses_iff_too_long.
 
@@ -72,70 +80,47 @@ Print Assumptions c17_bin_refuses_iff_too_long.
    65536 bytes, any order -> the reader returns the set. *)
 Theorem c17_bin_frames_roundtrip : forall p q,
   transportable_p p ->
-  (forall kv, In kv (marshal_kv p) -> N.of_nat (length (snd kv)) < 65536) ->
-  Permutation q (marshal_kv p) ->
+  (forall kv, In kv (kv_pairs p) -> N.of_nat (length (snd kv)) < 65536) ->
+  Permutation q (kv_pairs p) ->
   unmarshal_bin (frames q) = Some p.
 Proof. exact bin_roundtrip. Qed.
 Print Assumptions c17_bin_frames_roundtrip.
 
-(* F25 - FIXED in /repo (d2e00d7); a statement about the FORMER writer [marshal_bin_former], which
-   framed without any check: a set that Validate accepts unchanged, with UTF-8 text, was read
-   back WITHOUT ERROR as a different set (the length of a 65536-byte transport id truncated to
-   0, its bytes taken for further pairs).  The writer as it is now refuses that set. *)
-Theorem c17_former_writer_long_value_misread :
-  exists p p', validate p = Some p /\ transportable_p p /\
-               unmarshal_bin (marshal_bin_former (fun l => l) p) = Some p' /\ p_tid p' <> p_tid p.
-Proof. exact former_writer_long_value_misread. Qed.
-Print Assumptions c17_former_writer_long_value_misread.
-Theorem c17_long_value_now_refused : marshal_bin_checked (fun l => l) long_p = None.
-Proof. exact long_value_refused_when_checked. Qed.
-Print Assumptions c17_long_value_now_refused.
-
 (* ---------- rejection ---------- *)
 
-(* Validate, exactly: it rejects iff the encoding is unknown, or the compression type is
-   unknown, or a type is named and the level is outside 0..9 or the window bits outside 0..32. *)
-Theorem c17_reject : forall p,
-  validate p = None <->
-  (~ enc_known p) \/ (p_comp p <> [] /\ ~ comp_named p)
-  \/ (comp_named p /\ exists l, p_level p = Some l /\ (l < 0 \/ 9 < l)%Z)
-  \/ (comp_named p /\ exists w, p_bits p = Some w /\ (w < 0 \/ 32 < w)%Z).
-Proof. exact validate_rejects_iff. Qed.
-Print Assumptions c17_reject.
-
-(* Hence every invalid set is rejected - outside the two shapes of F26 and F27: the text is
-   UTF-8, and level/window are in range whenever no compression type is named. *)
-Theorem c17_reject_invalid : forall p,
-  valid_text p = true ->
-  (p_comp p = [] -> in_range 0 9 (p_level p) && in_range 0 32 (p_bits p) = true) ->
-  (validate p = None <-> valid_set p = false).
+(* Validate rejects EXACTLY the invalid sets - unconditionally ... *)
+Theorem c17_reject_invalid : forall p, validate p = None <-> valid_set p = false.
 Proof. exact invalid_rejected. Qed.
 Print Assumptions c17_reject_invalid.
 
-(* F27.  A level and window far outside their ranges pass Validate when no type is named, and
-   CompressConfig then ENABLES compression with them (on the real code: level 99 makes every
-   Write fail, window bits -1 makes Transport.Write panic with "negative shift amount"). *)
-Theorem c17_level_without_type_refuted :
-  let p := mkP [] [] (Some 99%Z) (Some 77%Z) [] false [] 0 0 in
-  validate p = Some p /\ forall base, effective (compress_config p base) = Enabled (c_dct base) 99%Z 77%Z.
-Proof. exact level_unchecked_without_type. Qed.
-Print Assumptions c17_level_without_type_refuted.
+(* ... spelled out defect by defect: it rejects iff some text is not UTF-8, or the encoding is
+   unknown, or the compression type is unknown, or the level is outside 0..9, or the window bits
+   are outside 0..32 (the last two whether or not a type is named). *)
+Theorem c17_reject : forall p,
+  validate p = None <->
+  valid_text p = false \/ (~ enc_known p) \/ (p_comp p <> [] /\ ~ comp_named p)
+  \/ (exists l, p_level p = Some l /\ (l < 0 \/ 9 < l)%Z)
+  \/ (exists w, p_bits p = Some w /\ (w < 0 \/ 32 < w)%Z).
+Proof. exact validate_rejects_iff. Qed.
+Print Assumptions c17_reject.
 
-(* F26.  Text that is not UTF-8 is neither rejected nor preserved: Validate accepts the set and
-   every carrier's writer replaces the bytes by U+FFFD, so the peer reads another id; and the
-   key/value and URL READERS accept a non-UTF-8 value (again as U+FFFD) that the binary reader
-   refuses. *)
-Theorem c17_non_utf8_refuted :
-  let p := mkP [] [] None None [255] false [] 0 0 in
-  validate p = Some p /\ unmarshal_kv (marshal_kv p) = Some (mkP [] [] None None [239; 191; 189] false [] 0 0).
-Proof. exact non_utf8_altered. Qed.
-Print Assumptions c17_non_utf8_refuted.
-Theorem c17_non_utf8_reader_refuted :
-  unmarshal_kv [(k_tid, [255])] = Some (mkP [] [] None None [239; 191; 189] false [] 0 0)
-  /\ unmarshal_url [(k_tid, [[255]])] = Some (mkP [] [] None None [239; 191; 189] false [] 0 0)
-  /\ unmarshal_bin (frames [(k_tid, [255])]) = None.
-Proof. exact non_utf8_accepted_by_kv_reader. Qed.
-Print Assumptions c17_non_utf8_reader_refuted.
+(* What Validate lets through is a valid set with level and window bits in range: a validated
+   set can no longer hand CompressConfig a level that flate refuses or window bits that make
+   WindowSize() panic. *)
+Theorem c17_validated_in_range : forall p p', validate p = Some p' ->
+  in_range 0 9 (p_level p') = true /\ in_range 0 32 (p_bits p') = true /\ valid_set p' = true.
+Proof. exact validated_in_range. Qed.
+Print Assumptions c17_validated_in_range.
+
+(* The key/value reader and the URL readers refuse a map in which any key or value is not UTF-8,
+   whatever else it holds (the binary reader: c17_reject_bin_bad_utf8_key and _value). *)
+Theorem c17_reject_kv_non_utf8 : forall init l, kv_text_ok l = false -> unmarshal_kv_into init l = None.
+Proof. exact kv_rejects_non_utf8. Qed.
+Print Assumptions c17_reject_kv_non_utf8.
+Theorem c17_reject_url_non_utf8 : forall init vals k v,
+  In (k, [v]) vals -> utf8_valid k && utf8_valid v = false -> unmarshal_url_into init vals = None.
+Proof. exact url_rejects_non_utf8. Qed.
+Print Assumptions c17_reject_url_non_utf8.
 
 (* The binary reader, exactly: on any byte string it accepts iff the bytes are the framing of a
    list of pairs with non-empty UTF-8 keys shorter than 65536 bytes, UTF-8 values, and no key
@@ -229,19 +214,83 @@ Print Assumptions c17_dialer_names_all.
    local defaults derives from the transmitted pairs (in any order) equals what the dialling side
    derives from its own configuration. *)
 Theorem c17_peers_agree : forall dc q base,
-  transportable_p (dial_params dc) -> Permutation q (marshal_kv (dial_params dc)) ->
+  transportable_p (dial_params dc) -> Permutation q (kv_pairs (dial_params dc)) ->
   exists p', unmarshal_kv q = Some p' /\
     effective (compress_config p' base) = effective (compress_config (dial_params dc) (dc_comp dc)).
 Proof. exact peers_agree. Qed.
 Print Assumptions c17_peers_agree.
 
-(* F27, second half: without a named type the settings DO depend on the local defaults. *)
-Theorem c17_config_without_type_refuted :
+(* NOT a violation - a remark on the hypothesis of c17_config_function: the clause of the
+   property is about sets that NAME their type.  A valid set without a type is accepted (level
+   and window in range, so nothing can fail or panic), and then the mode comes from the local
+   default; no dialer of the library produces such a set (c17_dialer_names_all).  Nothing more is
+   needed for the clause: with a named type, level and window the settings are [eff_spec]. *)
+Theorem c17_config_needs_named_type :
   let p := mkP [] [] (Some 5%Z) (Some 8%Z) [] false [] 0 0 in
   validate p = Some p /\
   effective (compress_config p (mkC false 0 true 0)) <> effective (compress_config p (mkC false 0 false 0)).
-Proof. exact level_without_type_depends_on_base. Qed.
-Print Assumptions c17_config_without_type_refuted.
+Proof. exact config_needs_named_type. Qed.
+Print Assumptions c17_config_needs_named_type.
+
+(* ---------- the FORMER code (findings F25, F26, F27 - all repaired in /repo) ---------- *)
+
+(* F25 - FIXED in /repo (d2e00d7); a statement about the FORMER writer [marshal_bin_former], which
+   framed without any check: a set that Validate accepts unchanged, with UTF-8 text, was read
+   back WITHOUT ERROR as a different set (the length of a 65536-byte transport id truncated to
+   0, its bytes taken for further pairs).  The writer as it is now refuses that set. *)
+Theorem c17_former_writer_long_value_misread :
+  exists p p', validate p = Some p /\ transportable_p p /\
+               unmarshal_bin (marshal_bin_former (fun l => l) p) = Some p' /\ p_tid p' <> p_tid p.
+Proof. exact former_writer_long_value_misread. Qed.
+Print Assumptions c17_former_writer_long_value_misread.
+Theorem c17_long_value_now_refused : marshal_bin_checked (fun l => l) long_p = None.
+Proof. exact long_value_refused_when_checked. Qed.
+Print Assumptions c17_long_value_now_refused.
+
+(* F26 - FIXED (1a00ab3).  The former Validate accepted text that is not UTF-8 and the former
+   writers replaced the bytes by U+FFFD, so the peer read another id; the former key/value and
+   URL readers accepted a non-UTF-8 value in the same way.  Now: refused everywhere. *)
+Theorem c17_former_non_utf8_altered :
+  let p := mkP [] [] None None [255] false [] 0 0 in
+  validate_former p = Some p /\
+  unmarshal_kv_into_former p0 (marshal_kv_former p) = Some (mkP [] [] None None [239; 191; 189] false [] 0 0).
+Proof. exact former_non_utf8_altered. Qed.
+Print Assumptions c17_former_non_utf8_altered.
+Theorem c17_former_reader_accepted_non_utf8 :
+  unmarshal_kv_into_former p0 [(k_tid, [255])] = Some (mkP [] [] None None [239; 191; 189] false [] 0 0).
+Proof. exact former_non_utf8_accepted_by_kv_reader. Qed.
+Print Assumptions c17_former_reader_accepted_non_utf8.
+Theorem c17_non_utf8_now_refused :
+  let p := mkP [] [] None None [255] false [] 0 0 in
+  validate p = None /\ marshal_kv p = None /\ marshal_url p = None /\ marshal_bin_checked (fun l => l) p = None.
+Proof. exact non_utf8_now_refused. Qed.
+Print Assumptions c17_non_utf8_now_refused.
+Theorem c17_non_utf8_now_refused_by_readers :
+  unmarshal_kv [(k_tid, [255])] = None /\ unmarshal_url [(k_tid, [[255]])] = None
+  /\ unmarshal_bin (frames [(k_tid, [255])]) = None.
+Proof. exact non_utf8_now_refused_by_readers. Qed.
+Print Assumptions c17_non_utf8_now_refused_by_readers.
+
+(* F27 - FIXED (20ec58b).  The former Validate passed a level and window far outside their ranges
+   when no type was named, and CompressConfig then ENABLED compression with them (on the real
+   code: level 99 made every Write fail, window bits -1 made Transport.Write panic).  It
+   rejected invalid sets only outside the shapes of F26 and F27.  Now: refused. *)
+Theorem c17_former_level_unchecked_without_type :
+  let p := mkP [] [] (Some 99%Z) (Some 77%Z) [] false [] 0 0 in
+  validate_former p = Some p /\ forall base, effective (compress_config p base) = Enabled (c_dct base) 99%Z 77%Z.
+Proof. exact former_level_unchecked_without_type. Qed.
+Print Assumptions c17_former_level_unchecked_without_type.
+Theorem c17_former_reject_invalid : forall p,
+  valid_text p = true ->
+  (p_comp p = [] -> in_range 0 9 (p_level p) && in_range 0 32 (p_bits p) = true) ->
+  (validate_former p = None <-> valid_set p = false).
+Proof. exact former_invalid_rejected. Qed.
+Print Assumptions c17_former_reject_invalid.
+Theorem c17_level_without_type_now_refused :
+  validate (mkP [] [] (Some 99%Z) (Some 77%Z) [] false [] 0 0) = None
+  /\ validate (mkP [] [] (Some 5%Z) (Some (-1)%Z) [] false [] 0 0) = None.
+Proof. exact level_without_type_now_refused. Qed.
+Print Assumptions c17_level_without_type_now_refused.
 
 (* ---------- non-vacuity ---------- *)
 
@@ -250,9 +299,9 @@ Print Assumptions c17_config_without_type_refuted.
    local defaults derive the same settings from it *)
 Example c17_example :
   let p := mkP enc_proto comp_cto (Some 6%Z) (Some 15%Z) (s2b "t-" ++ [195; 169]) true (s2b "grp") 3 2 in
-  let q := rev (marshal_kv p) in
-  valid_set p = true /\ transportable p = true /\ length (marshal_kv p) = 9%nat
-  /\ all_fit16 (marshal_kv p) = true
+  let q := rev (kv_pairs p) in
+  valid_set p = true /\ transportable p = true /\ length (kv_pairs p) = 9%nat
+  /\ all_fit16 (kv_pairs p) = true
   /\ unmarshal_kv q = Some p /\ unmarshal_url (singletons q) = Some p /\ unmarshal_bin (frames q) = Some p
   /\ marshal_bin_checked (@rev _) p = Some (frames q)
   /\ validate p = Some p
